@@ -521,7 +521,26 @@ func (s *Sim) startNode(n *simNode) error {
 				err = fmt.Errorf("panic in %s: %v", topFrame(debug.Stack()), r)
 			}
 		}()
+		// Server.setup replays the node's log on this (the driver's) goroutine. If the product
+		// wedges in there nothing else can run the simulation any more; a timer of the bubble
+		// still fires (everything is durably blocked, so simulated time races ahead) and turns
+		// the wedge into an observation the parent process classifies.
+		setupDone := make(chan struct{})
+		idx := n.idx
+		go func() {
+			t := time.NewTimer(600 * time.Second)
+			defer t.Stop()
+			select {
+			case <-setupDone:
+			case <-t.C:
+				buf := make([]byte, 4<<20)
+				k := runtime.Stack(buf, true)
+				fmt.Fprintf(realStderr, "panic: SETUP-WEDGED: the start-up of n%d (Server.setup: wiring and replay of its log) did not return within 600 simulated seconds\n\n%s\n", idx, buf[:k])
+				os.Exit(3)
+			}
+		}()
 		err = n.server.VerifSetup()
+		close(setupDone)
 	})
 	if err != nil {
 		n.alive = false
